@@ -26,6 +26,7 @@ fn main() {
         "c05_address_shapes" => c05_address_shapes(&mut nd),
         "c05_manager_steps" => c05_manager_steps(&mut nd),
         "c05_dial_address" => c05_dial_address(&mut nd),
+        "c16_dial_ledger" => c16_dial_ledger(&mut nd),
         "c16_put_to_targets" => c16_put_to_targets(&mut nd),
         "c14_table_ops" => c14_table_ops(&mut nd),
         "c14_bucket_full" => c14_bucket_full(&mut nd),
